@@ -675,7 +675,7 @@ pub fn eval_limit(c: &LimitCase) -> Outcome {
             return o;
         }
         Ok(Err(e)) => {
-            o.class(&format!("write_rejected:{}", &e[..e.len().min(40)]));
+            o.class(&format!("write_rejected:{}", clip(&e, 40)));
             return o;
         }
         Ok(Ok(f)) => f,
